@@ -311,6 +311,12 @@ func c12World(t *testing.T, p c12Params) rt.Result {
 			}
 			dismiss(prc)
 		}
+		if p.Passive {
+			time.Sleep(10 * time.Second)
+			if n := len(w.Dials()); n != 0 {
+				w.Violate("a passive peer made %d outbound attempt(s) in a history of protocol errors and hold-downs", n)
+			}
+		}
 	})
 	return worldResult(out, nDamp > 0, fmt.Sprintf("|%v %v", p.Passive, p.Steps), map[string]int{"protocol_errors": nDamp, "probes": nProbe, "histories": 1})
 }
